@@ -127,6 +127,11 @@ package rlp
 //@   requires wfStream(s)
 //@   ensures wfStream(s) && s.limited == old(s.limited) && s.remaining <= old(s.remaining) && len(s.stack) == old(len(s.stack))
 //@   ensures result2 == nil && result0 == Byte ==> result1 == 0 && s.byteval < 128
+// canonical sizes: the short forms carry 0..55, the long forms (tag above 0xB7 for strings, above 0xF7 for lists) at least 56
+//@   ensures result2 == nil && b >= 128 && b < 184 ==> result0 == String && int(result1) == int(b) - 128
+//@   ensures result2 == nil && b >= 184 && b < 192 ==> result0 == String && result1 >= 56
+//@   ensures result2 == nil && b >= 192 && b < 248 ==> result0 == List && int(result1) == int(b) - 192
+//@   ensures result2 == nil && b >= 248 ==> result0 == List && result1 >= 56
 //@   nopanic
 
 //@ func (*Stream).Kind
